@@ -21,3 +21,19 @@ Definition no_loads (t : list event) : Prop :=
 
 Definition no_allocs (t : list event) : Prop :=
   Forall (fun e => match e with Alloc => False | _ => True end) t.
+
+(* ---- substring search ---- *)
+(* the needle x occurs in h at offset i *)
+Definition occurs_at (x h : list N) (i : nat) : bool :=
+  (i + length x <=? length h) && list_eqb (slice h i (length x)) x.
+
+(* leftmost / rightmost occurrence; candidate offsets are 0 ..= |h| - |x| *)
+Definition find_spec (x h : list N) : option nat :=
+  if length x <=? length h
+  then first_idx (occurs_at x h) (seq 0 (length h - length x + 1))
+  else None.
+
+Definition rfind_spec (x h : list N) : option nat :=
+  if length x <=? length h
+  then last_idx (occurs_at x h) (seq 0 (length h - length x + 1))
+  else None.
